@@ -14,6 +14,9 @@ type vxLL struct {
 	calls   int
 	ok      int
 	lastErr bool
+	stallAt int           // the stallAt-th call blocks until release is closed (-1: never)
+	release chan struct{} // closed by the harness to let the stalled call go on
+	stalled bool
 	last    Snapshot // the higher snapshot offered by the previous call
 	reoffer bool     // every call after a failed one offered the same snapshot
 	rounds  [][]vxEnt
@@ -27,7 +30,7 @@ type vxLLSnap struct{ *segmentStack }
 func (s vxLLSnap) Close() error { return nil }
 
 func vxNewLL(opts *CollectionOptions) *vxLL {
-	return &vxLL{opts: opts, ss: &segmentStack{options: opts, refs: 1}, reoffer: true}
+	return &vxLL{opts: opts, ss: &segmentStack{options: opts, refs: 1}, reoffer: true, stallAt: -1, release: make(chan struct{})}
 }
 
 func (l *vxLL) snapshot() Snapshot { return vxLLSnap{l.ss} }
@@ -39,6 +42,11 @@ func (l *vxLL) update(higher Snapshot) (Snapshot, error) {
 		l.reoffer = false
 	}
 	l.last = higher
+	if n == l.stallAt {
+		l.stalled = true
+		<-l.release
+		l.stalled = false
+	}
 	if n < len(l.fail) && l.fail[n] {
 		l.lastErr = true
 		return nil, vxErrLL
